@@ -254,3 +254,207 @@ class CubicComputeLUAndSolve(Contract):
             ('solved', S.forall(L.i + 1, n, lambda k: [M.at(k, d).eq(Mpv(k, d) - cp.at(k, 0) * M.at(k + 1, d)) for d in DS])),
             ('pending', S.forall(0, L.i + 1, lambda k: [M.at(k, d).eq(Mpv(k, d)) for d in DS])),
         ], variant=lambda L: L.i + 1, terms=lambda L: [L.i, L.i + 1, L.i + 2])
+
+
+# ------------------------------------------------------------------------------------------------ cubic: coefficients (C01, C02)
+def cubic_rep(S, C, i, d):
+    """the closed form the code uses for segment i (kept as an exported relation for the gradient proofs)"""
+    M = S.v('internal_derivatives_')
+    P = S.v('spatial_points_')
+    pd = S.v('point_diffs_')
+    h = tp_field(S, i, 'h')
+    iv = tp_field(S, i, 'h_inv')
+    return [C.at(i * 4 + 0, d).eq(P.at(i, d)),
+            C.at(i * 4 + 1, d).eq(pd.at(i, d) * iv - (h / 6) * (2 * M.at(i, d) + M.at(i + 1, d))),
+            C.at(i * 4 + 2, d).eq(M.at(i, d) / 2),
+            C.at(i * 4 + 3, d).eq((M.at(i + 1, d) - M.at(i, d)) * (iv / 6))]
+
+
+def h_and_inv(S):
+    return [S.v('time_powers_').size().eq(S.num_segments_),
+            S.forall(0, S.num_segments_, lambda i: [tp_field(S, i, 'h') > 0, (tp_field(S, i, 'h') * tp_field(S, i, 'h_inv')).eq(1)])]
+
+
+def knot_conditions(S, C, nc, s, n, d, hfun, P, bc_start, bc_end):
+    """the defining equations of the minimum-energy interpolant for one coordinate:
+       interpolation from both sides of every knot, boundary derivatives, continuity up to order 2s-2 at interior knots"""
+    out = []
+    out.append(('interpolates_left_end', S.forall(0, n, lambda i: C.at(i * nc, d).eq(P.at(i, d)))))
+    out.append(('interpolates_right_end', S.forall(0, n, lambda i: der(C, nc, i, 0, hfun(i), d).eq(P.at(i + 1, d)))))
+    for k in range(1, s):
+        out.append(('start_derivative_%d' % k, der(C, nc, 0, k, 0, d).eq(bc_start[k - 1](d))))
+        out.append(('end_derivative_%d' % k, der(C, nc, n - 1, k, hfun(n - 1), d).eq(bc_end[k - 1](d))))
+    for k in range(1, 2 * s - 1):
+        out.append(('continuous_derivative_%d' % k, S.forall(1, n, lambda m, k=k: der(C, nc, m, k, 0, d).eq(der(C, nc, m - 1, k, hfun(m - 1), d)))))
+    return out
+
+
+@register
+class CubicSolveSpline(Contract):
+    key = 'CubicSplineND.solveSpline'
+
+    def spec(self, S):
+        n = S.num_segments_
+        DS = dims(S)
+        M = S.v('internal_derivatives_')
+        P = S.v('spatial_points_')
+        pd = S.v('point_diffs_')
+        bc = S.v('boundary_velocities_')
+        C = S.v('result')
+        S.requires(sizes_ok(S, 'CubicSplineND'), 'sizes')
+        for p in h_and_inv(S):
+            S.requires(p, 'time_powers')
+        for p in pd_ok(S):
+            S.requires(p, 'point_diffs')
+        S.terms(0, 1, n - 1, n, S.sk(0) - 1, S.sk(0) + 1)
+        S.assigns(M, S.v('cached_c_prime_'), S.v('cached_inv_denoms_'))
+        S.ensures(C.R.eq(4 * n) & M.R.eq(n + 1), 'rows')
+        hfun = lambda i: tp_field(S, i, 'h')
+        for d in DS:
+            S.ensures(S.forall(0, n, lambda i, d=d: cubic_rep(S, C, i, d)), 'closed_form_%d' % d)
+            for label, prop in knot_conditions(S, C, 4, 2, n, d, hfun, P,
+                                               [lambda dd: bc.fields['start_velocity'].at(dd, 0)], [lambda dd: bc.fields['end_velocity'].at(dd, 0)]):
+                S.ensures(prop, '%s_%d' % (label, d))
+        S.ensures(cubic_factor_first(S), 'cached_factor_first')
+        S.ensures(S.forall(1, n, lambda k: cubic_factor_mid(S, k)), 'cached_factors')
+        S.ensures(cubic_factor_last(S, n), 'cached_factor_last')
+        # loop 0: p_diff_h ; loop 1: coefficient rows
+        S.loop(0, inv=lambda L: [
+            ('range', (L.i >= 0) & (L.i <= n)),
+            ('rows', L.p_diff_h.R.eq(n)),
+            ('values', S.forall(0, L.i, lambda k: [L.p_diff_h.at(k, d).eq(pd.at(k, d) * tp_field(S, k, 'h_inv')) for d in DS])),
+        ], variant=lambda L: n - L.i)
+        S.loop(1, inv=lambda L: [
+            ('range', (L.i >= 0) & (L.i <= n)),
+            ('rows', L.coeffs.R.eq(4 * n)),
+            ('values', S.forall(0, L.i, lambda k: [cubic_rep(S, L.coeffs, k, d) for d in DS])),
+        ], variant=lambda L: n - L.i)
+
+
+# ------------------------------------------------------------------------------------------------ energy (C04)
+def make_energy_contract(cls):
+    s = ORDER_OF[cls]
+    nc = 2 * s
+
+    class GetEnergy(Contract):
+        key = cls + '.getEnergy'
+
+        def spec(self, S):
+            D = S.cfg['DIM']
+            n = S.num_segments_
+            C = S.v('coeffs_')
+            if cls == 'CubicSplineND':
+                Tfun = lambda i: tp_field(S, i, 'h')
+                S.requires(S.v('time_powers_').size().eq(n), 'durations_size')
+            else:
+                Tfun = lambda i: S.v('time_segments_').at(i)
+                S.requires(S.v('time_segments_').size().eq(n), 'durations_size')
+            S.requires((n >= 0) & (n <= NMAX) & C.R.eq(nc * n), 'sizes')
+            S.requires(S.forall(0, n, lambda i: Tfun(i) > 0), 'positive_durations')
+            S.assigns()
+            seg_term = lambda i: esum([seg_energy(C, nc, i, s, Tfun(i), d) for d in range(D)])
+            EP = S.define_prefix_sum('EP', n, seg_term)
+            S.ensures(implies(mk_not(S.is_initialized_), S.result.eq(0)), 'zero_when_uninitialised')
+            S.ensures(implies(S.is_initialized_, S.result.eq(EP(n))), 'sum_of_segment_integrals')
+            S.loop(0, inv=lambda L: [
+                ('range', (L.i >= 0) & (L.i <= n)),
+                ('partial_sum', L.total_energy.eq(EP(L.i))),
+            ], variant=lambda L: n - L.i, terms=lambda L: [L.i])
+
+    GetEnergy.__name__ = cls + 'GetEnergy'
+    register(GetEnergy)
+
+
+for _c in ORDER_OF:
+    make_energy_contract(_c)
+
+
+# ------------------------------------------------------------------------------------------------ quintic / septic: knot derivatives and Hermite closure
+KNOT_FIELDS = {'QuinticSplineND': ['internal_vel_', 'internal_acc_'], 'SepticSplineND': ['internal_vel_', 'internal_acc_', 'internal_jerk_']}
+BC_FIELDS = ['velocity', 'acceleration', 'jerk']
+BLOCK_CACHES = ['U_blocks_cache_', 'D_inv_cache_', 'L_blocks_cache_', 'D_inv_T_mul_L_next_T_cache_', 'ws_rhs_mod_', 'ws_solution_']
+
+
+def make_block_contracts(cls):
+    s = ORDER_OF[cls]
+    nc = 2 * s
+    kf = KNOT_FIELDS[cls]
+    outs = ['p_out', 'q_out', 's_out'][:s - 1]
+
+    class SolveInternalDerivatives(Contract):
+        """knot derivatives: boundary rows are the boundary states; interior rows come from the block-tridiagonal solve"""
+        key = cls + '.solveInternalDerivatives'
+
+        def spec(self, S):
+            D = S.cfg['DIM']
+            P = S.v('P')
+            n_pts = P.R
+            bc = S.v('boundary_')
+            S.requires((n_pts >= 2) & (n_pts <= NMAX + 1), 'at_least_two_points')
+            S.requires(S.v('time_powers_').size().eq(n_pts - 1) & S.v('point_diffs_').R.eq(n_pts - 1), 'sizes')
+            S.assume_nonzero_divisors_in('Inverse2x2', 'Inverse3x3')
+            S.assigns(*([S.v(o) for o in outs] + [S.v(x) for x in BLOCK_CACHES]))
+            for j, o in enumerate(outs):
+                X = S.v(o)
+                S.ensures(X.R.eq(n_pts), 'rows_%s' % o)
+                S.ensures(conj([X.at(0, d).eq(bc.fields['start_' + BC_FIELDS[j]].at(d, 0)) for d in range(D)]), 'first_row_is_start_%s' % BC_FIELDS[j])
+                S.ensures(conj([X.at(n_pts - 1, d).eq(bc.fields['end_' + BC_FIELDS[j]].at(d, 0)) for d in range(D)]), 'last_row_is_end_%s' % BC_FIELDS[j])
+            nb = n_pts - 2
+            boundary_rows = lambda: conj([S.v(o).R.eq(n_pts) for o in outs] +
+                                         [S.v(o).at(0, d).eq(bc.fields['start_' + BC_FIELDS[j]].at(d, 0)) for j, o in enumerate(outs) for d in range(D)] +
+                                         [S.v(o).at(n_pts - 1, d).eq(bc.fields['end_' + BC_FIELDS[j]].at(d, 0)) for j, o in enumerate(outs) for d in range(D)])
+            S.loop(0, inv=lambda L: [('range', (L.i >= 0) & (L.i <= nb))], variant=lambda L: nb - L.i)
+            S.loop(1 if cls == 'QuinticSplineND' else 1, inv=lambda L: [('range', (L.i >= -1) & (L.i <= nb - 2))], variant=lambda L: L.i + 1)
+            S.loop(3 if cls == 'QuinticSplineND' else 3, inv=lambda L: [('range', (L.i >= 0) & (L.i <= nb)), ('boundary_rows', boundary_rows())], variant=lambda L: nb - L.i)
+
+    class SolveCoefficients(Contract):
+        """Hermite closure: each segment matches the knot values and the knot derivatives of order < s at both ends"""
+        key = cls + ('.solveQuintic' if s == 3 else '.solveSepticSpline')
+
+        def spec(self, S):
+            n = S.num_segments_
+            DS = dims(S)
+            P = S.v('spatial_points_')
+            C = S.v('result')
+            bc = S.v('boundary_')
+            X = [P] + [S.v(f) for f in kf]
+            S.requires(sizes_ok(S, cls), 'sizes')
+            for p in all_tp_ok(S, cls):
+                S.requires(p, 'time_powers')
+            for p in pd_ok(S):
+                S.requires(p, 'point_diffs')
+            S.assume_nonzero_divisors_in('Inverse2x2', 'Inverse3x3')
+            S.terms(0, n - 1, n, S.sk(0) - 1, S.sk(0) + 1)
+            S.assigns(*([S.v(f) for f in kf] + [S.v(x) for x in BLOCK_CACHES]))
+            S.ensures(C.R.eq(nc * n), 'rows')
+            hfun = lambda i: tp_field(S, i, 'h')
+            for j, f in enumerate(kf):
+                S.ensures(S.v(f).R.eq(n + 1), 'knot_rows_%s' % f)
+            for d in DS:
+                for k in range(s):
+                    S.ensures(S.forall(0, n, lambda i, k=k, d=d: der(C, nc, i, k, 0, d).eq(X[k].at(i, d))), 'left_end_derivative_%d_%d' % (k, d))
+                    S.ensures(S.forall(0, n, lambda i, k=k, d=d: der(C, nc, i, k, hfun(i), d).eq(X[k].at(i + 1, d))), 'right_end_derivative_%d_%d' % (k, d))
+                for k in range(1, s):
+                    S.ensures(X[k].at(0, d).eq(bc.fields['start_' + BC_FIELDS[k - 1]].at(d, 0)), 'start_%s_%d' % (BC_FIELDS[k - 1], d))
+                    S.ensures(X[k].at(n, d).eq(bc.fields['end_' + BC_FIELDS[k - 1]].at(d, 0)), 'end_%s_%d' % (BC_FIELDS[k - 1], d))
+            S.loop(0, inv=lambda L: [
+                ('range', (L.i >= 0) & (L.i <= n)),
+                ('rows', L.coeffs.R.eq(nc * n)),
+            ] + [('left_%d_%d' % (k, d), S.forall(0, L.i, lambda i, k=k, d=d: der(L.coeffs, nc, i, k, 0, d).eq(X[k].at(i, d)))) for k in range(s) for d in DS]
+              + [('right_%d_%d' % (k, d), S.forall(0, L.i, lambda i, k=k, d=d: der(L.coeffs, nc, i, k, hfun(i), d).eq(X[k].at(i + 1, d)))) for k in range(s) for d in DS],
+                variant=lambda L: n - L.i, terms=lambda L: [L.i],
+                local=dict(
+                    pre=lambda L: [('tp', conj(tp_ok(S, L.i, cls)))] + [('pd_%d' % d, S.v('point_diffs_').at(L.i, d).eq(P.at(L.i + 1, d) - P.at(L.i, d))) for d in DS],
+                    post=lambda L: [('left_%d_%d' % (k, d), der(L.coeffs, nc, L.i, k, 0, d).eq(X[k].at(L.i, d))) for k in range(s) for d in DS]
+                                 + [('right_%d_%d' % (k, d), der(L.coeffs, nc, L.i, k, hfun(L.i), d).eq(X[k].at(L.i + 1, d))) for k in range(s) for d in DS]))
+
+
+
+    SolveInternalDerivatives.__name__ = cls + 'SolveInternalDerivatives'
+    SolveCoefficients.__name__ = cls + 'SolveCoefficients'
+    register(SolveInternalDerivatives)
+    register(SolveCoefficients)
+
+
+for _c in KNOT_FIELDS:
+    make_block_contracts(_c)
